@@ -150,6 +150,10 @@ class Base(VC):
     crate = GROUP
     name = "C09.group.instantiate.history"
 
+    def __init__(self, nmembers=2):
+        self.nmembers = nmembers
+        if nmembers != 2: self.name = f"C09.group.instantiate.history[members<={nmembers}]"
+
     def run(self, I, ctx, ob):
         for ns, ty in (("admin", "Option<Addr>"), ("cw4-hooks", "Vec<Addr>"), ("total", "u64"), ("contract_info", "cw2::ContractVersion")):
             ctx.storage[ns] = ItemStore(ns, False, None, ty)
@@ -158,7 +162,7 @@ class Base(VC):
             ctx.storage[ns] = MapStore(ns, [], kt, ty)
         env, info = mk_env(I, ctx), mk_info(I, ctx)
         H = env.get("block").get("height")
-        ctx.bounds["vec"] = 2
+        ctx.bounds["vec"] = self.nmembers
         msg = symval.fresh(I, ctx, "msg::InstantiateMsg", "msg", None, GROUP)
         outcome, r, pre = call_entry(I, ctx, ob, GROUP, "instantiate", "instantiate", [make_deps(), env, info, msg], env, info, msg, "msg::InstantiateMsg", GROUP)
         if outcome != "Ok": return
@@ -250,6 +254,7 @@ def vcs(tier):
     out = [Snap(GROUP, "UpdateMembers", "member", k), Snap(GROUP, "UpdateMembers", "total", k), Base(),
            Snap(STAKE, "Bond", "member", k), Snap(STAKE, "Unbond", "member", k),
            RawKeys(GROUP), RawKeys(STAKE), Current(GROUP), Current(STAKE)]
+    out.append(Base(4))
     return out
 
 
